@@ -235,7 +235,7 @@ func main() {
 	cfgs := allConfigs()
 	if os.Getenv("VERIF_C14_LIST") != "" { // debugging aid
 		for i, c := range cfgs {
-			fmt.Printf("%d\t%s\thuge=%v accepted=%v\n", i, c, c.Huge(), c.Accepted())
+			fmt.Printf("%d\t%s\thuge=%v accepted=%v heavy=%v\n", i, c, c.Huge(), c.Accepted(), heavyCase(c, tier))
 		}
 		return
 	}
